@@ -76,3 +76,37 @@ package mvp3
 //@   assigns u.l1d.lines
 //@   loop 0: invariant wfMMU(u) && u.l1d == old(u.l1d) && u.ctx == old(u.ctx) && len(u.l1d.lines) == len(old(u.l1d.lines)) && len(memory) == _idx0 && cap(memory) >= len(addrs) && fresh(memory) && !sameArray(memory, addrs)
 //@   loop 0: step comp.covers(u.l1d.lines[0], addrs[_idx0-1]) && memory[_idx0-1] == u.l1d.lines[0].Data[addrs[_idx0-1] - int32(u.l1d.lines[0].Boundary[0])]
+
+// write hit: delegated to LRUCache.Write; the range must lie inside one line
+// (an aligned word straddling two unaligned lines indexes past Data and
+// panics: known finding F15, excluded here by the precondition and recorded
+// at the call site of writeExecutionMemoryChangesToL1D).
+//@ func (*memoryManagementUnit).writeToL1D
+//@   requires wfMMU(u) && comp.distinctData(u.l1d) && 0 <= addr && addr <= 1073741824 && len(data) <= 1048576
+//@   requires exists i :: comp.firstCover(u.l1d, addr, i)
+//@   requires forall i :: comp.firstCover(u.l1d, addr, i) ==> int(addr) + len(data) <= int(u.l1d.lines[i].Boundary[1]) && !sameArray(data, u.l1d.lines[i].Data)
+//@   ensures forall i, a :: comp.firstCover(u.l1d, addr, i) && comp.wbase(u.l1d, addr, i) <= a && a < comp.wbase(u.l1d, addr, i) + len(data) ==> at(u.l1d.lines[i].Data, a) == old(data[a - comp.wbase(u.l1d, addr, i)])
+//@   ensures u.l1d.lines == old(u.l1d.lines)
+//@   assigns comp.Delta, all []int8
+
+// final flush: every byte of every resident line is in memory afterwards and
+// bytes not covered by a resident line are untouched. With overlapping lines
+// the last line written wins (known findings F14/F16: region "lines overlap").
+//@ spec func memAt(u *memoryManagementUnit, x int) int8 = at(u.ctx.Memory, lo(u.ctx.Memory) + x)
+//@ func (*memoryManagementUnit).flush
+//@   requires wfMMU(u) && u.l1d.lineLength == 64 && allocated(u.ctx.Memory) && (forall j :: 0 <= j && j < len(u.l1d.lines) ==> !sameArray(u.l1d.lines[j].Data, u.ctx.Memory) && int32(u.l1d.lines[j].Boundary[0]) <= 1073741824)
+//@   nooverflow additionalCycles
+//@   ensures result == latency.MemoryAccess * len(u.l1d.lines)
+//@   ensures forall j, k :: 0 <= j && j < len(u.l1d.lines) && 0 <= k && k < 64 && int(u.l1d.lines[j].Boundary[0]) + k < len(u.ctx.Memory) ==> memAt(u, int(u.l1d.lines[j].Boundary[0]) + k) == u.l1d.lines[j].Data[k]
+//@   ensures forall x :: 0 <= x && x < len(u.ctx.Memory) && x <= 2147483647 && (forall j :: 0 <= j && j < len(u.l1d.lines) ==> !comp.covers(u.l1d.lines[j], int32(x))) ==> memAt(u, x) == old(memAt(u, x))
+//@   finding F14-F16-overlapping-lines: !comp.disjointLines(u.l1d)
+//@   assigns u.ctx.Memory[*]
+//@   loop 0: invariant u.ctx == old(u.ctx) && u.l1d == old(u.l1d) && u.ctx.Memory == old(u.ctx.Memory) && additionalCycles == latency.MemoryAccess * _idx0 && _range0 == u.l1d.lines
+//@   loop 0: invariant forall j, a :: 0 <= j && j < len(u.l1d.lines) && lo(u.l1d.lines[j].Data) <= a && a < hi(u.l1d.lines[j].Data) ==> at(u.l1d.lines[j].Data, a) == old(at(u.l1d.lines[j].Data, a))
+//@   loop 0: invariant comp.disjointLines(u.l1d) ==> (forall j, k :: 0 <= j && j < _idx0 && 0 <= k && k < 64 && int(u.l1d.lines[j].Boundary[0]) + k < len(u.ctx.Memory) ==> memAt(u, int(u.l1d.lines[j].Boundary[0]) + k) == u.l1d.lines[j].Data[k])
+//@   loop 0: invariant forall x :: 0 <= x && x < len(u.ctx.Memory) && x <= 2147483647 && (forall j :: 0 <= j && j < _idx0 ==> !comp.covers(u.l1d.lines[j], int32(x))) ==> memAt(u, x) == old(memAt(u, x))
+//@   loop 1: invariant 0 <= i && i <= 64 && u.ctx == old(u.ctx) && u.l1d == old(u.l1d) && u.ctx.Memory == old(u.ctx.Memory) && additionalCycles == latency.MemoryAccess * (_idx0 + 1) && _range0 == u.l1d.lines && 0 <= _idx0 && _idx0 < len(u.l1d.lines)
+//@   loop 1: invariant forall j, a :: 0 <= j && j < len(u.l1d.lines) && lo(u.l1d.lines[j].Data) <= a && a < hi(u.l1d.lines[j].Data) ==> at(u.l1d.lines[j].Data, a) == old(at(u.l1d.lines[j].Data, a))
+//@   loop 1: invariant comp.disjointLines(u.l1d) ==> (forall j, k :: 0 <= j && j < _idx0 && 0 <= k && k < 64 && int(u.l1d.lines[j].Boundary[0]) + k < len(u.ctx.Memory) ==> memAt(u, int(u.l1d.lines[j].Boundary[0]) + k) == u.l1d.lines[j].Data[k])
+//@   loop 1: invariant i > 0 ==> (forall k :: 0 <= k && k < 64 && int(u.l1d.lines[_idx0].Boundary[0]) + k < len(u.ctx.Memory) ==> memAt(u, int(u.l1d.lines[_idx0].Boundary[0]) + k) == u.l1d.lines[_idx0].Data[k])
+//@   loop 1: invariant forall x :: 0 <= x && x < len(u.ctx.Memory) && x <= 2147483647 && (forall j :: 0 <= j && j < _idx0 ==> !comp.covers(u.l1d.lines[j], int32(x))) && !comp.covers(u.l1d.lines[_idx0], int32(x)) ==> memAt(u, x) == old(memAt(u, x))
